@@ -27,19 +27,32 @@ LEVEL_TEXT = ('Partial. Coq theorems over R: (a) on the kernels regenerated from
               'checks on real bound_constrained_solve runs and the control-flow IR only (no executed trace correspondence for this thin wrapper). '
               '(c) exact KKT + convex objective + concave constraints => global constrained minimiser (unique if strictly convex), and the '
               'quantitative version: a tol-KKT point of a mu-strongly convex problem is within (eg + sqrt(eg^2 + 4 mu (S+Vi)))/(2 mu) of the '
-              'minimiser (abstract first-order form). (d) by computation over ALL paths of the control-flow IR regenerated from the ASTs of '
+              'minimiser (abstract first-order form). (c2) the convex clause over LISTS OF R (vectors of length n, gradients as lists, pairing = dot '
+              'product, Cauchy-Schwarz for the model norm), tied to the solver: every normal return of the outer-loop model whose oracles at the '
+              'returned point are the constraint values and the AL gradient grad f - sum max(lam_i - kappa_i c_i, 0) grad c_i of a problem '
+              '(effective multipliers = the GENERATED update statement) passes the termination test of that problem; for a convex objective and '
+              'concave constraints (first-order interface dconvex/dconcave) such a point satisfies f(x) - f(y) <= tol*|y-x| + tol/(2-sqrt2) * '
+              'sum_i max(c_i(x), lam_i/kappa0_i) for EVERY feasible y, f(x*) - f(x) <= tol * sum_i lam*_i/kappa0_i, and for a mu-strongly convex '
+              'objective |x - x*| <= (tol + sqrt(tol^2 + 4 mu T))/(2 mu) with T the two sums; tol = 0: global constrained minimiser, unique under '
+              'strict convexity.  Hypothesis left: the jax gradient of the AL function is that vector (measured on every convex return). '
+              '(c3) NewtonSolver.globalized_newton_step (hand model, arbitrary oracles for the residual, the GMRES Newton step and the jax slope): '
+              'whenever a step is returned GMRES reported success, the step is the Newton step scaled by c in [0.01^k, 0.5^k] after '
+              'k < maxLinesearchIters cutbacks, the forcing term stays in [etak, 1) and the residual energy at x+s is below (1 - t(1 - etak\')) times '
+              'the one at x (descent lemma); tied by an executed correspondence on the real function. (d) by computation over ALL paths of the control-flow IR regenerated from the ASTs of '
               'augmented_lagrange_solve and bound_constrained_solve: objective.p := p (the parameters of THIS call) exactly once, after any warm '
               'start and before the first sub-problem solve, no other store to .p, for every combination of useWarmStart / updatePrecond / '
               'updatePrecondBeforeWarmStart -- so the oracles of (b) are those of the problem that was asked for. '
-              'Not proved: convergence. The model is tied to the code by a '
+              'Not proved: convergence; that JAX autodiff of the AL function yields al_gradient (measured); any contract on the GMRES answer '
+              '(linear_update / newton_step are oracles); no executed trace correspondence for the thin wrapper bound_constrained_solve. '
+              'The model is tied to the code by a '
               'trace correspondence with scripted oracles; the conclusions are also evaluated on real end-to-end solves (incl. the '
               'bound-constrained front end) and against an independent active-set enumeration for convex QPs, including load-stepping histories '
               '(several successive solves on one objective with changing parameters, all flag combinations, each return judged against the '
               'parameters of that call).')
 TECHNIQUE = 'Coq proof (Reals + Coquelicot) over regenerated kernels and a hand state-machine model; vm_compute/PrimFloat trace correspondence'
 GEN = ['ConstrainedObjective', 'AlSolver', 'BoundConstrainedObjective', 'CFG_drivers']
-TARGETS = ['proofs/L_C04.vo', 'model/M_C04_AL.vo', 'proofs/L_C04_CFG.vo', 'proofs/L_C04_Upd.vo']
-COQ_FILES = ['base/Num.v', 'base/Piecewise.v', 'model/M_C04_AL.v', 'model/M_C19_CFG.v', 'proofs/L_C04.v', 'proofs/L_C04_CFG.v', 'proofs/L_C04_Upd.v', 'props/P_C04.v']
+TARGETS = ['proofs/L_C04.vo', 'model/M_C04_AL.vo', 'proofs/L_C04_CFG.vo', 'proofs/L_C04_Upd.vo', 'proofs/L_C04_Cvx.vo', 'proofs/L_C04_Newton.vo']
+COQ_FILES = ['base/Num.v', 'base/Piecewise.v', 'model/M_C04_AL.v', 'model/M_C19_CFG.v', 'proofs/L_C04.v', 'proofs/L_C04_CFG.v', 'proofs/L_C04_Upd.v', 'proofs/L_C04_Cvx.v', 'proofs/L_C04_Newton.v', 'props/P_C04.v']
 TRUSTED = ['Coq 8.16.1 kernel + vm_compute (no native_compute)',
            'tools/vlib/py2coq.py translator (fischer_burmeister, fischer_burmeister_jac_l, nested f of create_augmented_lagrangian with objective/constraint as oracles), cross-checked at binary64 against the implementation',
            'statement extraction of py2coq (extract= with attrs/lens/masked_set rewrites: obj.field -> local name, len(v) -> scalar parameter, '
@@ -49,18 +62,25 @@ TRUSTED = ['Coq 8.16.1 kernel + vm_compute (no native_compute)',
            'harness-side sksparse shim (dense Cholesky) as preconditioner; harness-side replacement of AlSolver.linear_update and of the sub_problem_solver argument by logging/scripted wrappers in the L1 runs',
            'tools/vlib/extract_drivers.py (AST -> control-flow IR of augmented_lagrange_solve / bound_constrained_solve, fail closed) and the path '
            'semantics of model/M_C19_CFG.v (conditions independent, loops 0/1/2 passes); cross-checked by the load-stepping conclusion stream',
+           'hand model of NewtonSolver.globalized_newton_step (Section GNewton of model/M_C04_AL.v), tied by the executed correspondence with newton_step '
+           'and jax.grad replaced by logging/scripted wrappers (returned step rtol 1e-11, number of tests / slope / residual evaluations exact)',
            'theorems are over exact reals; binary64 rounding is covered only by the correspondence']
 ASSUMPTIONS = ['exact real arithmetic in theorems',
                'oracles (sub-problem solver, constraint, grad_x of the AL function, linear_update) are arbitrary functions of the call site and the state',
                'grad_x of the AL function is grad f - J^T max(lam - kappa c, 0): chain rule through the proved penalty derivative (JAX autodiff, checked numerically in L1)',
-               'convex clause: first-order convexity/concavity inequalities as hypotheses; exact KKT only',
+               'convex clause: first-order convexity/concavity inequalities (dconvex / dstrict / dstrong / dconcave over lists of length n) as hypotheses on the user functions; '
+               'the oracles of the model at the returned point are the problem\'s constraint values and al_gradient (hypotheses of C04_return_passes_test_of_the_problem, the second one measured)',
                'complementarity is stated in the min form min(kappa0*c, lam); the product form is scale dependent (refuted theorem)']
 RULE = ('L1: seeded problems (2-4 unknowns, 1-4 linear constraints) run through the real augmented_lagrange_solve with a scripted '
         'sub_problem_solver (real trust-region result, real result plus noise, or arbitrary points; arbitrary success flags) and a scripted or '
         'real linear_update; a case is distinct by its event-kind sequence and non-trivial when it contains a penalty growth, a rejected '
         'line-search step or a normal return.  L2: seeded end-to-end solves, distinct by (family, sizes, active-set pattern, settings); '
-        'load-stepping histories of 3-4 calls on one ConstrainedObjective / BoundConstrainedObjective with parameters (load, constraint shift) '
-        'changing at every call, the flag combinations of the later calls cycling through all of useWarmStart x updatePrecond x '
+        'load-stepping histories of 3-4 calls on one ConstrainedObjective / BoundConstrainedObjective with parameters (load, constraint shift); '
+        'every normal return of a convex family (qp / exp / ball) is also judged by the convex clause: the al_gradient hypothesis, |grad_x AL| < tol, '
+        'the proved optimality gap against the reference minimiser and ~40 random points (those that are feasible count), the lower bound against '
+        'the reference.  Newton globalisation: seeded residuals (cubic / arctan, 1-3 unknowns), scripted Newton steps (exact, overshooting, reversed, '
+        'random, reported failure), forcing term / t / maxLinesearchIters varied; distinct by (n, number of cutbacks) when a step is returned. '
+        'Load stepping: parameters changing at every call, the flag combinations of the later calls cycling through all of useWarmStart x updatePrecond x '
         'updatePrecondBeforeWarmStart; a step is distinct by (front end, family, flags, active set) and counts only when it returned.')
 IMPORTS = ['From OV.gen Require Import Gen_ConstrainedObjective Gen_AlSolver Gen_BoundConstrainedObjective.', 'From OV.model Require Import M_C04_AL.']
 
@@ -220,6 +240,66 @@ def kkt_report(M, f, c, p, x, lam, kappa, kappa0, tol):
                      max_product=float(onp.max(onp.abs(lam * cv))), active=[int(i) for i in onp.nonzero(lam > 10 * tol)[0]])
 
 
+def convex_report(M, obj, f, c, p, x, kappa0, tol, rng, ref):
+    """hypotheses and conclusions of C04_return_passes_test_of_the_problem / C04_convex_return_gap / C04_convex_return_lower on one
+    normal return of a CONVEX problem (f convex, every c_i concave): -> (bad, tie, info)
+    tie:  the oracle hypothesis of the theorems -- alObjective.gradient(x) IS grad f - J^T max(lam - kappa*c, 0) (al_gradient of the model)
+    bad:  |grad_x AL| < tol;  f(x) - f(y) <= tol*|y-x| + tol/(2-sqrt2)*sum_i max(c_i(x), lam_i/kappa0_i) for feasible y (the reference
+          minimiser when there is one, and random feasible points);  f(x*) - f(x) <= tol * sum_i lam*_i/kappa0_i"""
+    jax, jnp, onp = M['jax'], M['jnp'], M['onp']
+    xj = jnp.array(x)
+    xa = onp.array(x)
+    g = onp.array(jax.grad(f)(xj, p))
+    lam, kappa, k0 = onp.array(obj.lam), onp.array(obj.kappa), onp.array(kappa0)
+    m = len(lam)
+    J = onp.array(jax.jacfwd(c)(xj, p)).reshape(m, -1)
+    cv = onp.array(c(xj, p))
+    bad, tie = [], []
+    mu_eff = onp.maximum(lam - kappa * cv, 0.0)
+    g_model = g - J.T @ mu_eff
+    g_impl = onp.array(obj.gradient(xj))
+    scale = float(onp.linalg.norm(g)) + float(onp.sum(onp.abs(J.T) @ onp.abs(mu_eff))) + 1e-300
+    if not float(onp.linalg.norm(g_impl - g_model)) <= 1e-9 * tol + 512 * 2.3e-16 * (1.0 + scale + float(onp.linalg.norm(xa))):     # rounding of grad f itself (terms O(1+|x|)) when it nearly vanishes
+        tie.append('alObjective.gradient(x) differs from grad f - J^T max(lam - kappa*c, 0) by %r (the al_gradient oracle hypothesis of the convex-clause theorems)'
+                   % float(onp.linalg.norm(g_impl - g_model)))
+    gn = float(onp.linalg.norm(g_impl))
+    if not gn < tol * (1 + 1e-9):
+        bad.append('returned although |grad_x AL| = %r >= tol = %g' % (gn, tol))
+    slack_sum = float(onp.sum(onp.maximum(cv, lam / k0)))
+    fx = float(f(xj, p))
+    ys = []
+    if ref is not None:
+        ys.append(('reference minimiser', onp.array(ref[0])))
+    n = len(xa)
+    for _ in range(40):
+        d = onp.array([rng.gauss(0, 1) for _ in range(n)])
+        y = xa + 10.0 ** rng.uniform(-7, 0.7) * d / max(float(onp.linalg.norm(d)), 1e-300)
+        if ref is not None and rng.random() < 0.3:
+            y = onp.array(ref[0]) + rng.random() * (y - onp.array(ref[0]))     # towards the (feasible) minimiser
+        ys.append(('random point', y))
+    nfeas, worst = 0, -1e300
+    for what, y in ys:
+        cy = onp.array(c(jnp.array(y), p))
+        if not onp.all(cy >= (0.0 if what == 'random point' else -1e-9)):
+            continue
+        nfeas += 1
+        gap = fx - float(f(jnp.array(y), p))
+        lim = tol * float(onp.linalg.norm(y - xa)) + tol / SQ * slack_sum
+        worst = max(worst, gap - lim)
+        if not gap <= lim * (1 + 1e-9) + 4e-13 * (1.0 + abs(fx)) + (0.0 if what == 'random point' else 1e-8 * scale):
+            bad.append('convex problem, returned x is not tol-optimal against the feasible %s y = %r: f(x) - f(y) = %r exceeds tol*|y-x| + tol/(2-sqrt2)*sum max(c_i, lam_i/kappa0_i) = %r'
+                       % (what, [float(a) for a in y], gap, lim))
+            break
+    info = dict(gap_points_feasible=nfeas, gap_worst_margin=worst if nfeas else None, slack_sum=slack_sum, grad_al_norm=gn)
+    if ref is not None:
+        lower = float(f(jnp.array(ref[0]), p)) - fx
+        liml = tol * float(onp.sum(onp.array(ref[2]) / k0))
+        info.update(lower_gap=lower, lower_limit=liml)
+        if not lower <= liml * (1 + 1e-9) + 4e-13 * (1.0 + abs(fx)) + 1e-9 * tol:
+            bad.append('convex problem: f(x*) - f(x) = %r exceeds tol * sum_i lam*_i/kappa0_i = %r (returned point is super-optimal beyond the proved infeasibility allowance)' % (lower, liml))
+    return bad, tie, info
+
+
 def run_e2e(spec):
     """one real solve; returns dict(status, bad=[...], info)"""
     M = mods()
@@ -237,7 +317,7 @@ def run_e2e(spec):
                           target_constraint_decrease_factor=spec.get('tdf', 0.75))
     subs = Eq.get_settings(tol=0.05 * tol, max_trust_iters=400)
     x0 = jnp.array(pr['x0'])
-    bad, obs = [], []
+    bad, obs, tie, ref = [], [], [], None
     with quiet():
         obj = CO.ConstrainedObjective(f, c, x0, p, lam0, kappa0)
 
@@ -274,7 +354,11 @@ def run_e2e(spec):
                 info.update(dist_to_reference=dist, dist_limit=lim, ref_active=ref[1], slack_S=S_, weighted_violation=Vi_)
                 if not dist <= lim:
                     bad.append('returned point differs from the active-set reference minimiser by %r, more than the proved bound %g for a tol-KKT point (mu=%g)' % (dist, lim, mu))
-    return dict(status=status, bad=bad, info=info)
+        if spec['family'] in ('qp', 'exp', 'ball'):          # convex objective, concave constraints: the convex clause over lists of R
+            b3, tie, rep3 = convex_report(M, obj, f, c, p, x, kappa0, tol, random.Random(spec['seed'] + 29), ref)
+            bad += b3
+            info.update(rep3)
+    return dict(status=status, bad=bad, tie=tie, info=info)
 
 
 def judge_bound(M, obj, f, p, x, idx, tol, qp):
@@ -1088,6 +1172,165 @@ def l1_missing(case, rec, out):
     return miss
 
 
+# ============================================================================ NewtonSolver.globalized_newton_step: model tie + descent conclusion
+
+def gn_cases(ctx):
+    r = ctx.rng('gnewton')
+    return [dict(kind='gn', n=r.choice([1, 2, 3]), seed=r.randrange(1 << 30), style=k % 5) for k in range(ctx.n(40, 300))]
+
+
+def run_gn_case(M, case):
+    """one call of the real globalized_newton_step on a small smooth residual; newton_step (GMRES) is replaced by a scripted step
+    (exact Newton step, overshooting multiples of it, arbitrary directions, reported failure); every concrete residual evaluation
+    and every directional slope jax delivers is logged and fed to the model's oracles.  deterministic from (n, seed, style)"""
+    jax, jnp, onp, NS = M['jax'], M['jnp'], M['onp'], M['NS']
+    r = random.Random(case['seed'])
+    n, style = case['n'], case['style']
+    A = onp.array([[r.uniform(-1, 1) for _ in range(n)] for _ in range(n)]) + 2.0 * onp.eye(n)
+    b = onp.array([r.uniform(-2, 2) for _ in range(n)])
+    w = onp.array([r.uniform(0.0, 3.0) for _ in range(n)])
+    Aj, bj, wj = jnp.array(A), jnp.array(b), jnp.array(w)
+    kind = r.choice(['cubic', 'atan'])
+    residual = (lambda y: Aj @ y + wj * y ** 3 - bj) if kind == 'cubic' else (lambda y: Aj @ jnp.arctan(wj * y + y) - 0.3 * bj)
+    x = onp.array([r.uniform(-2, 2) for _ in range(n)]) * r.choice([1.0, 1.0, 5.0])
+    r0 = onp.array(residual(jnp.array(x)))
+    Jm = onp.array(jax.jacfwd(residual)(jnp.array(x)))
+    try:
+        sN = -onp.linalg.solve(Jm, r0)
+    except onp.linalg.LinAlgError:
+        sN = -r0
+    code = 0
+    if style == 0:
+        s0 = sN
+    elif style == 1:
+        s0 = sN * r.choice([3.0, 10.0, 40.0, 200.0])
+    elif style == 2:
+        s0 = onp.array([r.gauss(0, 1) for _ in range(n)]) * 10.0 ** r.uniform(-3, 1)
+    elif style == 3:
+        s0 = sN * r.choice([-1.0, -5.0, 1.9, 2.1])
+    else:
+        s0 = sN
+        code = r.choice([1, 0, 100])
+    etak, t, maxls = r.choice([1e-3, 0.1, 0.5, 0.9]), r.choice([1e-4, 0.1, 0.5, 1.0]), r.choice([1, 2, 4, 4, 7])
+    log_res, log_slope = [], []
+
+    def res_logged(y):
+        v = residual(y)
+        if not isinstance(v, jax.core.Tracer):
+            log_res.append(onp.array(v))
+        return v
+
+    def grad_logged(fn):
+        def g(tt):
+            v = jax.grad(fn)(tt)
+            log_slope.append(float(v))
+            return v
+        return g
+    o_newton, o_grad = NS.newton_step, NS.grad
+    NS.newton_step = lambda residual_, linear_op, x_, settings=None, precond=None: (onp.array(s0, dtype=float).copy(), code)
+    NS.grad = grad_logged
+    buf = io.StringIO()
+    try:
+        with quiet(buf):
+            out = NS.globalized_newton_step(res_logged, None, jnp.array(x), etak, t, maxls)
+    finally:
+        NS.newton_step, NS.grad = o_newton, o_grad
+    step = None if (isinstance(out, float) and out == 0.0) else onp.array(out)
+    # the function prints one 'linesearch iter' line per pass of its loop = per sufficient-decrease test
+    return dict(case=case, x=x, s0=s0, failed=code != 0, etak=etak, t=t, maxls=maxls, res=log_res, slopes=log_slope, step=step,
+                tests=buf.getvalue().count('linesearch iter'))
+
+
+def gn_energy(v):
+    return 0.5 * float(math.sqrt(sum(float(a) * float(a) for a in v))) ** 2
+
+
+def gn_conclusion(run):
+    """C04_globalized_newton_descent on the implementation's outputs"""
+    bad = []
+    if run['step'] is None:
+        return bad
+    k = len(run['slopes'])
+    s, s0 = run['step'], run['s0']
+    if run['failed']:
+        bad.append('a step was returned although newton_step reported a non-zero exit code')
+    if not k < run['maxls']:
+        bad.append('a step was returned after %d cutbacks with maxLinesearchIters = %d' % (k, run['maxls']))
+    e0, eN = gn_energy(run['res'][0]), gn_energy(run['res'][-1])
+    if not eN < e0:
+        bad.append('returned step does not decrease the residual energy: 0.5|r(x+s)|^2 = %r, 0.5|r(x)|^2 = %r' % (eN, e0))
+    j = max(range(len(s0)), key=lambda i: abs(s0[i]))
+    c = float(s[j]) / float(s0[j]) if s0[j] != 0.0 else 1.0
+    if not (0.01 ** k * (1 - 1e-12) <= c <= 0.5 ** k * (1 + 1e-12) and all(C.close(float(a), c * float(b), rtol=1e-12, atol=1e-300) for a, b in zip(s, s0))):
+        bad.append('returned step %r is not the Newton step %r scaled by a factor in [0.01^k, 0.5^k], k = %d cutbacks' % (s.tolist(), s0.tolist(), k))
+    return bad
+
+
+def gn_model_expr(run):
+    res = C.clist([cvec(v) for v in run['res']])
+    slopes = C.clist([C.cf(v) for v in run['slopes']])
+    return ('enc_gn (globalized_newton_step (gn_scripted %s (%s, %s) %s) %s %s %s %d)' %
+            (res, cvec(run['s0']), 'true' if run['failed'] else 'false', slopes, cvec(run['x']), C.cf(run['etak']), C.cf(run['t']), run['maxls']))
+
+
+def gn_parse(z):
+    i, evs = 0, []
+    while i < len(z):
+        tag = z[i]
+        if tag == 1:
+            evs.append(('try', z[i + 1]) + tuple(C.dec_floats(z[i + 2:i + 6])) + (bool(z[i + 6]),))
+            i += 7
+        elif tag == 2:
+            evs.append(('cut', z[i + 1]) + tuple(C.dec_floats(z[i + 2:i + 8])))
+            i += 8
+        elif tag == 3:
+            evs.append(('uphill', z[i + 1]) + tuple(C.dec_floats(z[i + 2:i + 4])))
+            i += 4
+        elif tag == 7:
+            evs.append(('step', C.dec_floats(z[i + 1:])))
+            i = len(z)
+        elif tag == 8:
+            evs.append(('none',))
+            i += 1
+        else:
+            raise C.CoqError('unparsable globalized_newton_step trace at %d: tag %r' % (i, tag))
+    return evs
+
+
+def gn_compare(run, mev):
+    """-> (None | mismatch text, near_tie)"""
+    e0 = gn_energy(run['res'][0])
+    near = False
+    for e in mev:
+        if e[0] == 'try':
+            lim = e[3] * e0
+            near = near or abs(e[2] - lim) <= 1e-9 * max(abs(e[2]), abs(lim), 1e-300)
+        elif e[0] in ('cut', 'uphill'):
+            near = near or abs(e[2]) <= 1e-12
+    for j, d in enumerate(run['slopes']):
+        if j + 1 < len(run['res']):
+            a = gn_energy(run['res'][j + 1]) - e0 - d          # compute_min_p switches formula at a = 0
+            near = near or abs(a) <= 1e-9 * max(e0, abs(d), 1e-300)
+    ntry = sum(1 for e in mev if e[0] == 'try')
+    ncut = sum(1 for e in mev if e[0] in ('cut', 'uphill'))
+    want_try = run['tests']
+    nres = 1 if run['failed'] else 2 + sum(1 for e in mev if e[0] == 'cut')     # residual evaluations the model's path makes
+    if nres != len(run['res']):
+        return 'implementation evaluated the residual %d times, the model\'s path %d times' % (len(run['res']), nres), near
+    last = mev[-1]
+    if run['step'] is None:
+        if last[0] != 'none':
+            return 'implementation returned 0.0 (no step), model returns the step %r' % (last[1],), near
+    else:
+        if last[0] != 'step':
+            return 'implementation returned the step %r, model returns no step' % (run['step'].tolist(),), near
+        if not (len(last[1]) == len(run['step']) and all(C.close(float(a), float(b), rtol=1e-11, atol=1e-300) for a, b in zip(run['step'], last[1]))):
+            return 'implementation step %r, model step %r' % (run['step'].tolist(), last[1]), near
+    if ntry != want_try or ncut != len(run['slopes']):
+        return ('implementation made %d sufficient-decrease tests and %d slope evaluations, model %d and %d' % (want_try, len(run['slopes']), ntry, ncut)), near
+    return None, near
+
+
 def kernel_cases(ctx):
     r = ctx.rng('kern')
     fb, pen, mp = [], [], []
@@ -1137,6 +1380,9 @@ def correspondence(ctx, model_ok):
         st = res['status']
         statuses[st] = statuses.get(st, 0) + 1
         inf = res['info']
+        if st == 'returned' and spec['kind'] == 'e2e' and inf.get('gap_points_feasible') is not None:
+            ctx.count('convex_returns_judged')
+            ctx.count('convex_gap_feasible_points', inf['gap_points_feasible'])
         if st == 'returned' and spec['kind'] != 'steps':
             distinct.add((spec['kind'], spec.get('family'), spec['n'], spec['m'], tuple(inf.get('active', [])), spec.get('second'), spec.get('ps')))
             ctx.count('outer_iterations_observed', inf['outer_iterations'])
@@ -1144,7 +1390,7 @@ def correspondence(ctx, model_ok):
         for b in res['bad']:
             ctx.fail('conclusion', '%s solve %s: %s' % (spec['kind'], {k: spec[k] for k in ('front', 'family', 'n', 'm', 'seed') if k in spec}, b), case=spec, concrete=True)
         for b in res.get('tie', []):     # the front-end model (bc_solve / initial state) differs from the implementation
-            ctx.fail('correspondence', 'bound-constrained front end %s: %s' % ({k: spec[k] for k in ('n', 'm', 'seed') if k in spec}, b), case=spec)
+            ctx.fail('correspondence', '%s %s: %s' % ('bound-constrained front end' if spec['kind'] == 'bound' else 'oracle hypothesis of the convex clause', {k: spec[k] for k in ('family', 'n', 'm', 'seed') if k in spec}, b), case=spec)
     ctx.cov['e2e_status_histogram'] = statuses
     ctx.cov['load_step_flag_histogram'] = step_hist
     # ---------------- L1a: generated kernels and the proved penalty derivative at binary64
@@ -1207,6 +1453,39 @@ def correspondence(ctx, model_ok):
                 ctx.fail('conclusion', 'compute_min_p%r = %r leaves the bracket' % (t, float(mpv[i])), case=dict(kind='minp', args=t), concrete=True)
         ctx.count('kernel_comparisons', len(ex))
         ctx.count('kernel_mismatches', mism)
+    # ---------------- L1c: NewtonSolver.globalized_newton_step, model vs implementation + descent conclusion
+    gruns = [run_gn_case(M, cs_) for cs_ in gn_cases(ctx)]
+    ctx.count('evaluations', len(gruns))
+    ghist = {}
+    for run in gruns:
+        key = ('gmres-failed' if run['failed'] else 'no-step' if run['step'] is None else 'step') + ' after %d cutbacks' % len(run['slopes'])
+        ghist[key] = ghist.get(key, 0) + 1
+        if run['step'] is not None:
+            distinct.add(('gn', run['case']['n'], len(run['slopes'])))
+        for b in gn_conclusion(run):
+            ctx.fail('conclusion', 'globalized_newton_step (n=%d seed=%d style=%d): %s' % (run['case']['n'], run['case']['seed'], run['case']['style'], b),
+                     case=run['case'], concrete=True)
+    ctx.cov['newton_globalisation_histogram'] = ghist
+    if model_ok:
+        gres = C.coq_eval(IMPORTS, [gn_model_expr(run) for run in gruns], 'C04g', shard=100)
+        gm = gu = 0
+        for run, z in zip(gruns, gres):
+            try:
+                why, near = gn_compare(run, gn_parse(z))
+            except (IndexError, C.CoqError) as ex:
+                why, near = 'model trace unreadable: %s' % ex, False
+            if why is None:
+                continue
+            if near:
+                gu += 1
+                continue
+            gm += 1
+            if gm <= 5:
+                ctx.fail('correspondence', 'globalized_newton_step model vs NewtonSolver (n=%d seed=%d style=%d): %s' % (run['case']['n'], run['case']['seed'], run['case']['style'], why),
+                         case=run['case'])
+        ctx.count('newton_globalisation_comparisons', len(gruns))
+        ctx.count('newton_globalisation_mismatches', gm)
+        ctx.count('newton_globalisation_unstable_near_tie', gu)
     # ---------------- L1b: outer loop, scripted oracles, event traces
     runs = run_l1(ctx)
     ctx.count('evaluations', len(runs))
@@ -1301,6 +1580,11 @@ def replay(ctx, path):
         cs, rec, out = run_mock_case(mods(), dict(case))
         bad = l1_conclusion(cs, rec, out)
         print('implementation now (AlSolver loop on the recorded scripted objective):', bad or 'conclusion holds')
+        return 1 if bad else 0
+    if case and case.get('kind') == 'gn':
+        run = run_gn_case(mods(), dict(case))
+        bad = gn_conclusion(run)
+        print('implementation now (globalized_newton_step):', bad or 'conclusion holds')
         return 1 if bad else 0
     if not case or case.get('kind') not in ('e2e', 'bound', 'steps'):
         print('no end-to-end failing input recorded (kind %r); broken obligations: %s' % ((case or {}).get('kind'), rep.get('broken')))
